@@ -2,7 +2,7 @@
 From Coq Require Import ZArith List Bool String.
 Local Open Scope string_scope.
 From VD Require Import Base.Bytes Base.Text Model.Shlex Model.Recorder Model.Replay.
-From VD Require Import Proofs.RecorderP Proofs.ParserP Proofs.SessionP.
+From VD Require Import Proofs.RecorderP Proofs.ParserP Proofs.SessionP Gen.RecorderOps Proofs.RecorderTie.
 Import ListNotations.
 Local Open Scope list_scope.
 Open Scope Z_scope.
@@ -60,3 +60,23 @@ Print Assumptions C17_one_entry_per_event.
 (** non-vacuity: the initial state of a connection satisfies the hypotheses *)
 Example C17_initial_state_ok : need_ok (rstate0 false 0) /\ quiescent (rstate0 false 0).
 Proof. split; [reflexivity|unfold quiescent; cbn; reflexivity]. Qed.
+
+(** The entries of the model are the source's own: [Gen/RecorderOps.v] is regenerated from the text of handle_keyEvent /
+    handle_pointerEvent on every run (gen/recorder.py: the word list, its formats, the down-flag test, the move test
+    against the remembered position, the loop over the eight buttons, the update of last_event and of the position) and
+    equals [record_key] / [record_pointer] for every state and event. *)
+Theorem C17_key_entry_is_source : forall s now key down,
+  record_key s now key down =
+  match gen_record_key (r_last s) now key down with
+  | None => None
+  | Some (line, last') => Some (line, mk_rstate (r_buf s) (r_handler s) (r_need s) (r_pwreq s) (r_mouse s) last')
+  end.
+Proof. exact record_key_is_source. Qed.
+Print Assumptions C17_key_entry_is_source.
+
+Theorem C17_pointer_entry_is_source : forall s now x y mask,
+  record_pointer s now x y mask =
+  let '(line, mouse', last') := gen_record_pointer (r_mouse s) (r_last s) now x y mask in
+  (line, mk_rstate (r_buf s) (r_handler s) (r_need s) (r_pwreq s) mouse' last').
+Proof. exact record_pointer_is_source. Qed.
+Print Assumptions C17_pointer_entry_is_source.
